@@ -828,3 +828,145 @@ func VerifC20SelfNested() {
 	}
 	vassert(err != nil, "a graph nested in itself is rejected by Compile with an error")
 }
+
+// One *GraphBranch value given to a Workflow and to an ordinary Graph, in either order, and the Graph compiled before
+// and after the Workflow: lowering the branch for the Workflow (where branches carry no data) leaves the caller's
+// branch value alone, so the Graph's selected target always receives the branching node's output.
+func VerifC20SharedBranchValue() {
+	ctx := context.Background()
+	vcfg("fifo", 1)
+	br := NewGraphBranch(func(ctx context.Context, in map[string]any) (string, error) { return "a", nil }, map[string]bool{"a": true, "b": true})
+	x := vsymInt("x")
+	in := map[string]any{"in": x}
+	mkGraph := func() (Runnable[map[string]any, map[string]any], error) {
+		g := NewGraph[map[string]any, map[string]any]()
+		_ = g.AddLambdaNode("a", vNode("a", nil))
+		_ = g.AddLambdaNode("b", vNode("b", nil))
+		_ = g.AddBranch(START, br)
+		_ = g.AddEdge("a", END)
+		_ = g.AddEdge("b", END)
+		return g.Compile(ctx, WithNodeTriggerMode(AllPredecessor))
+	}
+	mkWorkflow := func() error {
+		wf := NewWorkflow[map[string]any, map[string]any]()
+		wf.AddPassthroughNode("gate").AddInput(START)
+		wf.AddLambdaNode("a", vNode("a", nil)).AddInputWithOptions("gate", nil, WithNoDirectDependency())
+		wf.AddLambdaNode("b", vNode("b", nil)).AddInputWithOptions("gate", nil, WithNoDirectDependency())
+		wf.AddBranch("gate", br)
+		wf.End().AddInput("a", ToField("a")).AddInput("b", ToField("b"))
+		_, err := wf.Compile(ctx)
+		return err
+	}
+	want := map[string]any{"a": vsymUF("f_a", vFold(in))}
+	order := vchoose("order", 3)
+	switch order {
+	case 0: // workflow first, then the graph
+		vassert(mkWorkflow() == nil, "workflow compiles")
+		r, err := mkGraph()
+		vassert(err == nil, "graph compiles")
+		out, rerr := r.Invoke(ctx, in)
+		vassert(rerr == nil && vMapEq(out, want), "a graph built with a branch value a workflow used before: the selected target receives the input")
+	case 1: // graph compiled, then the workflow: the compiled graph is unaffected
+		r, err := mkGraph()
+		vassert(err == nil, "graph compiles")
+		vassert(mkWorkflow() == nil, "workflow compiles")
+		out, rerr := r.Invoke(ctx, in)
+		vassert(rerr == nil && vMapEq(out, want), "a compiled graph is unaffected by a workflow that uses the same branch value later")
+	case 2: // the same graph-building sequence repeated after the workflow gives the same runnable
+		_, err := mkGraph()
+		vassert(err == nil, "graph compiles")
+		vassert(mkWorkflow() == nil, "workflow compiles")
+		r, err := mkGraph()
+		vassert(err == nil, "graph compiles again")
+		out, rerr := r.Invoke(ctx, in)
+		vassert(rerr == nil && vMapEq(out, want), "the same construction sequence gives the same runnable after a workflow has used the branch value")
+	}
+}
+
+// Missing components and an untypable pass-through are ill-formed constructions like any other: every front end
+// answers with an error (from the Add* call or from Compile), never with a panic.
+func VerifC20NilComponents() {
+	ctx := context.Background()
+	vcfg("fifo", 1)
+	var err error
+	switch vchoose("case", 10) {
+	case 0:
+		err = NewGraph[string, string]().AddLambdaNode("k", nil)
+	case 1:
+		err = NewGraph[string, string]().AddGraphNode("k", nil)
+	case 2:
+		err = NewGraph[string, string]().AddChatModelNode("k", nil)
+	case 3:
+		err = NewGraph[string, string]().AddToolsNode("k", nil)
+	case 4:
+		err = NewGraph[string, string]().AddChatTemplateNode("k", nil)
+	case 5:
+		_, err = NewChain[string, string]().AppendLambda(nil).Compile(ctx)
+	case 6:
+		wf := NewWorkflow[string, string]()
+		wf.AddLambdaNode("k", nil).AddInput(START)
+		wf.End().AddInput("k")
+		_, err = wf.Compile(ctx)
+	case 7:
+		cb := NewChainBranch(func(ctx context.Context, in string) (string, error) { return "x", nil })
+		cb.AddLambda("x", nil)
+		cb.AddLambda("y", InvokableLambda(func(ctx context.Context, s string) (string, error) { return s, nil }))
+		_, err = NewChain[string, string]().AppendBranch(cb).Compile(ctx)
+	case 8:
+		p := NewParallel()
+		p.AddLambda("x", nil)
+		p.AddLambda("y", InvokableLambda(func(ctx context.Context, s string) (string, error) { return s, nil }))
+		_, err = NewChain[string, map[string]any]().AppendParallel(p).Compile(ctx)
+	case 9: // a pass-through with an input key and an output key: nothing can give the value it carries a type
+		g := NewGraph[map[string]any, map[string]any]()
+		_ = g.AddPassthroughNode("p", WithInputKey("a"), WithOutputKey("b"))
+		_ = g.AddEdge(START, "p")
+		_ = g.AddEdge("p", END)
+		var r Runnable[map[string]any, map[string]any]
+		r, err = g.Compile(ctx)
+		if err == nil { // or it is given a type and works
+			out, rerr := r.Invoke(ctx, map[string]any{"a": 1})
+			vassert(rerr == nil && out["b"] == 1, "a keyed pass-through that compiles hands the value under its input key on under its output key")
+			return
+		}
+	}
+	vassert(err != nil, "a missing component (or an untypable pass-through) is rejected with an error")
+}
+
+// Outcome determinism includes the reason given: a graph with a cycle through three nodes (all-predecessor mode), or
+// with two untypable pass-through nodes, is rejected with the same error text on every attempt, whatever order the
+// compile steps visit their maps in.
+func VerifC20SameReason() {
+	ctx := context.Background()
+	vcfg("fifo", 1)
+	shape := vchoose("shape", 2)
+	build := func() error {
+		g := NewGraph[map[string]any, map[string]any]()
+		if shape == 0 {
+			for _, k := range []string{"a", "b", "c"} {
+				_ = g.AddLambdaNode(k, vNode(k, nil))
+			}
+			_ = g.AddEdge(START, "a")
+			_ = g.AddEdge("a", "b")
+			_ = g.AddEdge("b", "c")
+			_ = g.AddEdge("c", "a")
+			_ = g.AddEdge("c", END)
+		} else {
+			_ = g.AddLambdaNode("a", vNode("a", nil))
+			_ = g.AddPassthroughNode("p")
+			_ = g.AddPassthroughNode("q")
+			_ = g.AddEdge(START, "a")
+			_ = g.AddEdge("a", END)
+		}
+		_, err := g.Compile(ctx, WithNodeTriggerMode(AllPredecessor))
+		return err
+	}
+	e1 := build() // one attempt in the default order of the maps ...
+	vcfgMapOrderIn("validateDAG") // (the maps of the cycle check; those of compile itself are too many to enumerate)
+	e2 := build() // ... and one in any order
+	vcfgMapOrderIn("-validateDAG")
+	vassert(e1 != nil && e2 != nil, "the ill-formed graph is rejected on every attempt")
+	if e1 != nil && e2 != nil {
+		vassert(e1.Error() == e2.Error(), "and for the same stated reason on every attempt")
+	}
+}
